@@ -31,7 +31,9 @@ TEXT_POSITIONS = ["enumeration", "numeric-facet", "length-facet", "doc-simple", 
                   # the same URI positions with a non-hierarchical URI (urn:...): URL normalisation percent-encodes much less there
                   "target-namespace-opaque-uri", "imported-namespace-opaque-uri", "address-opaque-uri", "soap-action-opaque-uri",
                   # the payload at the very start of the last path segment, where prefix / module abbreviations are taken from
-                  "target-namespace-leading", "imported-namespace-leading"]
+                  "target-namespace-leading", "imported-namespace-leading",
+                  # facets the generated restriction check has no counterpart for: wherever their text ends up, it is text
+                  "pattern-facet", "white-space-facet", "total-digits-facet", "fraction-digits-facet"]
 MARK = "ZQXMARK"
 
 
@@ -57,8 +59,10 @@ def base_program(names=None, texts=None):
     f1.prefixes = {1: "sh"}
     code = SimpleType(names.get("simple-type", N("Code")), TypeRef("string"),
                       Facets(enumeration=[texts.get("enumeration", "ALPHA"), "BETA"]), texts.get("doc-simple"), 1)
-    level = SimpleType(N("Level"), TypeRef("int"), Facets(min_inclusive=texts.get("numeric-facet", 1), max_inclusive=9), None, 1)
-    tag = SimpleType(N("Tag"), TypeRef("string"), Facets(max_length=texts.get("length-facet", 12)), None, 1)
+    level = SimpleType(N("Level"), TypeRef("int"), Facets(min_inclusive=texts.get("numeric-facet", 1), max_inclusive=9, unchecked=[
+        (k, texts[p]) for k, p in (("totalDigits", "total-digits-facet"), ("fractionDigits", "fraction-digits-facet")) if p in texts] or None), None, 1)
+    tag = SimpleType(N("Tag"), TypeRef("string"), Facets(max_length=texts.get("length-facet", 12), unchecked=[
+        (k, texts[p]) for k, p in (("pattern", "pattern-facet"), ("whiteSpace", "white-space-facet")) if p in texts] or None), None, 1)
     item = ComplexType(names.get("complex-type", N("Item")),
                        Content(Group("sequence", 1, 1, [
                            LocalElement(names.get("local-element", N("label")), TypeRef("string")),
@@ -169,6 +173,8 @@ def payload_matrix():
                 text = "5" + marked
             elif pos == "length-facet":
                 text = "12" + marked
+            elif pos in ("total-digits-facet", "fraction-digits-facet"):
+                text = "3" + marked
             else:
                 text = marked
             ss = base_program(texts={pos: text})
